@@ -1,5 +1,6 @@
 import Folang.Model.Driver
 import Folang.Model.Tokenizer
+import Folang.Lemmas.TokProgress
 /-
 C16 — fc always terminates with either complete output or a diagnostic.  (PARTIAL)
 
@@ -10,8 +11,9 @@ Full statement (kept visible; not provable in any model: it speaks of the Go run
 Proved parts:
   * `driver_exit0_complete`, `driver_failure_discipline` — the driver (all argument lists);
   * `scan_progress` — every token returned by the scanner model consumes at least one byte and stays
-    inside the buffer (all byte strings), hence `tokenize_terminates`: the tokenizer never runs out
-    of fuel, it only stops at EOF or at a panic (= diagnostic).
+    inside the buffer (all byte strings, every scanner); `nextNonSpace_none_is_panic` — the token
+    loop never runs out of fuel: it fails only where a scanner panics (= diagnostic);
+    `tkzNext_advances` — positions strictly increase until EOF.
 Missing: termination of the parser, of inference (the occurs check of fix 1e8a7fd is tied by the
 mutant stream, not modelled) and of emission; Go stack / memory exhaustion on huge inputs.
 -/
@@ -99,5 +101,197 @@ example :
     transpileFiles [⟨"p.foi", false, true, true, true⟩, ⟨"a.fo", true, true, true, true⟩,
       ⟨"b.fo", true, true, false, true⟩, ⟨"c.fo", true, true, true, true⟩] =
     { exitOk := false, written := ["a.fo"], diag := some "b.fo" } := by decide
+
+/-! ### the scanner makes progress -/
+
+open Folang.Tokenizer Folang.Literal in
+/-- **scan_progress**: on a non-empty rest of the buffer every token the scanner returns consumes at
+least one byte and ends inside the buffer (all byte strings, every scanner) -/
+theorem scan_progress (s : Bytes) (t : Tok) (h : scanTokenAt s = .tok t) (hne : s ≠ []) :
+    0 < t.extent ∧ t.extent ≤ s.length := by
+  cases s with
+  | nil => exact absurd rfl hne
+  | cons b rest =>
+    unfold scanTokenAt at h
+    simp only at h
+    by_cases h1 : b = SP ∨ b = TAB
+    · -- SPACE starting with a blank or a tab
+      rw [if_pos h1] at h
+      have hsl : spaceLike (b :: rest) = true := by
+        rcases h1 with rfl | rfl <;> simp [spaceLike]
+      split at h
+      · rename_i n hn
+        simp only [Res.tok.injEq] at h
+        subst h
+        exact ⟨by simpa [Tok.extent] using spaceLen_pos _ _ hsl hn, by simpa [Tok.extent] using spaceLen_le _ _ hn⟩
+      · cases h
+    · rw [if_neg h1] at h
+      by_cases h2 : b = SL
+      · rw [if_pos h2] at h
+        cases rest with
+        | nil => simp [one] at h; subst h; simp [Tok.extent]
+        | cons c rest' =>
+          simp only at h
+          by_cases h3 : c = Tokenizer.ST ∨ c = SL
+          · rw [if_pos h3] at h
+            have hsl : spaceLike (b :: c :: rest') = true := by
+              subst h2
+              rcases h3 with rfl | rfl <;> simp [spaceLike]
+            split at h
+            · rename_i n hn
+              simp only [Res.tok.injEq] at h
+              subst h
+              subst h2
+              exact ⟨by simpa [Tok.extent] using spaceLen_pos _ _ hsl hn, by simpa [Tok.extent] using spaceLen_le _ _ hn⟩
+            · cases h
+          · rw [if_neg h3] at h
+            simp [one] at h; subst h; simp [Tok.extent]
+      · rw [if_neg h2] at h
+        split at h
+        · -- identifier / keyword
+          simp only [Res.tok.injEq] at h
+          subst h
+          have := identLen_le rest
+          simp [Tok.extent]; omega
+        · split at h
+          · -- integer
+            split at h
+            · rename_i n v hn
+              simp only [Res.tok.injEq] at h
+              subst h
+              have hb := intScan_bound (b :: rest) 0 0 hn
+              rename_i hnum _
+              have hpos : 0 < n := by
+                simp only [intScan, hnum, if_true] at hn
+                have := intScan_bound rest 1 _ hn
+                omega
+              simp [Tok.extent] at hb ⊢; omega
+            · cases h
+          · -- strings, interpolated strings, punctuation
+            split at h
+            · obtain ⟨v, r', hscan, hext⟩ := strTok_progress h
+              have := scanStr_rest_lt _ hscan
+              simp at hext ⊢; omega
+            · split at h
+              · obtain ⟨v, r', hscan, hext⟩ := strTok_progress h
+                have := scanRaw_rest_lt _ hscan
+                simp at hext ⊢; omega
+              · split at h
+                · cases rest with
+                  | nil => cases h
+                  | cons c rest' =>
+                    simp only at h
+                    split at h
+                    · obtain ⟨v, r', hscan, hext⟩ := strTok_progress h
+                      have := scanStr_rest_lt _ hscan
+                      simp at hext ⊢; omega
+                    · split at h
+                      · obtain ⟨v, r', hscan, hext⟩ := strTok_progress h
+                        have := scanRaw_rest_lt _ hscan
+                        simp at hext ⊢; omega
+                      · cases h
+                · have := scanPunct_progress b rest t h
+                  simpa using this
+
+open Folang.Tokenizer Folang.Literal in
+/-- **the token loop never runs out of fuel**: with the fuel the tokenizer uses (buffer length + 2),
+`nextToken` fails only where one of the scanners panics (= a diagnostic), never for lack of fuel —
+the model's counterpart of "the scanner loop cannot spin" (it could before fix b8a3c7e) -/
+theorem nextNonSpace_none_is_panic : ∀ (fuel : Nat) (s : Bytes) (off : Nat), s.length + 2 ≤ fuel →
+    nextNonSpace fuel off s = none → ∃ k, scanTokenAt (s.drop k) = .panic := by
+  intro fuel
+  induction fuel with
+  | zero => intro s off h; omega
+  | succ f ih =>
+    intro s off hf h
+    simp only [nextNonSpace] at h
+    cases hs : scanTokenAt s with
+    | panic => exact ⟨0, by simpa using hs⟩
+    | tok t =>
+      simp only [hs] at h
+      split at h
+      · rename_i hk
+        cases s with
+        | nil =>
+          simp [scanTokenAt] at hs
+          subst hs
+          simp at hk
+        | cons b rest =>
+          have hp := scan_progress (b :: rest) t hs (by simp)
+          have hlen : ((b :: rest).drop t.extent).length + 2 ≤ f := by
+            simp only [List.length_drop]
+            simp at hf hp ⊢; omega
+          obtain ⟨k, hk'⟩ := ih _ _ hlen h
+          exact ⟨t.extent + k, by rw [← List.drop_drop]; exact hk'⟩
+      · cases h
+
+open Folang.Tokenizer Folang.Literal in
+/-- the next non-space token begins at or after the current position and ends inside the buffer -/
+theorem nextNonSpace_bounds : ∀ (fuel : Nat) (s : Bytes) (off : Nat) {b : Nat} {t : Tok},
+    nextNonSpace fuel off s = some (b, t) → off ≤ b ∧ b + t.len ≤ off + s.length := by
+  intro fuel
+  induction fuel with
+  | zero => intro s off b t h; simp [nextNonSpace] at h
+  | succ f ih =>
+    intro s off b t h
+    simp only [nextNonSpace] at h
+    cases hs : scanTokenAt s with
+    | panic => simp [hs] at h
+    | tok t0 =>
+      simp only [hs] at h
+      cases s with
+      | nil =>
+        simp [scanTokenAt] at hs
+        subst hs
+        simp at h
+        obtain ⟨rfl, rfl⟩ := h
+        simp
+      | cons c rest =>
+        have hp := scan_progress (c :: rest) t0 hs (by simp)
+        split at h
+        · have := ih _ _ h
+          simp only [List.length_drop] at this
+          omega
+        · simp only [Option.some.injEq, Prod.mk.injEq] at h
+          obtain ⟨rfl, rfl⟩ := h
+          simp [Tok.extent] at hp ⊢
+          omega
+
+/-- the current token lies inside the buffer -/
+def Inside (z : Folang.Tokenizer.Tkz) : Prop := z.bpos + z.cur.len ≤ z.buf.length
+
+open Folang.Tokenizer Folang.Literal in
+theorem newTkz_inside (buf : Bytes) (z : Tkz) (h : newTkz buf = some z) : Inside z ∧ z.buf = buf := by
+  unfold newTkz at h
+  split at h
+  · cases h
+  · rename_i b t hn
+    simp only [Option.some.injEq] at h
+    subst h
+    have := nextNonSpace_bounds _ _ _ hn
+    exact ⟨by simp [Inside]; omega, rfl⟩
+
+open Folang.Tokenizer Folang.Literal in
+/-- `tkzNext` moves forward and stays inside the buffer: the next token begins at or after the end of
+the current one, so with `scan_progress` the positions strictly increase until EOF and a buffer of n
+bytes yields at most n + 1 tokens -/
+theorem tkzNext_advances (z z' : Tkz) (hin : Inside z) (h : tkzNext z = some z') (hk : z.cur.kind ≠ "EOF") :
+    z.bpos + z.cur.len ≤ z'.bpos ∧ z'.buf = z.buf ∧ Inside z' := by
+  unfold Inside at hin
+  unfold tkzNext at h
+  simp only [hk, if_false] at h
+  split at h
+  · simp only [Option.some.injEq] at h
+    subst h
+    simp [Inside]; omega
+  · split at h
+    · cases h
+    · rename_i hlt b t hn
+      simp only [Option.some.injEq] at h
+      subst h
+      have := nextNonSpace_bounds _ _ _ hn
+      simp only [List.length_drop] at this
+      refine ⟨this.1, rfl, ?_⟩
+      simp [Inside]; omega
 
 end Folang.Props.C16
